@@ -755,3 +755,108 @@ class ConsistentWalk:
                 for d, _lab in succ:
                     todo.append((d, s, t2))
         return out
+
+
+# ---------------------------------------------------------------------------
+# 7. None-ness of values and "for which values does a function hand its argument on" (C07.i)
+
+NONE, OBJ = "None", "obj"
+BOTH = frozenset({NONE, OBJ})
+
+_BUILTIN_CTORS = {"str", "bytes", "int", "float", "tuple", "list", "dict", "set", "frozenset", "repr", "bool", "object", "bytearray"}
+
+
+def _refine(test, env):
+    """(env if test holds, env if it does not) for tests on the None-ness of a name the environment knows"""
+    pol = True
+    while isinstance(test, ast.UnaryOp) and isinstance(test.op, ast.Not):
+        test, pol = test.operand, not pol
+    name, none_when_true = None, None
+    if isinstance(test, ast.Name):
+        name, none_when_true = test.id, False  # `if x:` -- objects here (exceptions, messages) are true
+    elif isinstance(test, ast.Compare) and len(test.ops) == 1 and isinstance(test.ops[0], (ast.Is, ast.IsNot, ast.Eq, ast.NotEq)):
+        a, b = test.left, test.comparators[0]
+        if isinstance(a, ast.Constant) and a.value is None:
+            a, b = b, a
+        if isinstance(a, ast.Name) and isinstance(b, ast.Constant) and b.value is None:
+            name, none_when_true = a.id, isinstance(test.ops[0], (ast.Is, ast.Eq))
+    if name is None or name not in env:
+        return env, env
+    t, f = dict(env), dict(env)
+    t[name] = env[name] & ({NONE} if none_when_true else {OBJ})
+    f[name] = env[name] & ({OBJ} if none_when_true else {NONE})
+    if not pol:
+        t, f = f, t
+    return t, f
+
+
+def nullness(prog, fi, e, env=None, depth=5):
+    """Which of {None, an object} the value of expression e (in function fi) can be; `env` gives the answer for
+    names (parameters under discussion) and for expression texts (e.g. 'e.args[0]').  Anything not understood is
+    BOTH, so the answer only ever errs towards 'may be either'."""
+    env = env or {}
+    if e is None or depth < 0:
+        return BOTH
+    key = " ".join(ast.unparse(e).split())
+    if key in env:
+        return frozenset(env[key])
+    if isinstance(e, ast.Constant):
+        return frozenset({NONE}) if e.value is None else frozenset({OBJ})
+    if isinstance(e, (ast.JoinedStr, ast.Tuple, ast.List, ast.Dict, ast.Set, ast.ListComp, ast.DictComp, ast.SetComp, ast.GeneratorExp, ast.Lambda, ast.BinOp, ast.Compare)):
+        return frozenset({OBJ})
+    if isinstance(e, ast.NamedExpr):
+        return nullness(prog, fi, e.value, env, depth)
+    if isinstance(e, ast.Name):
+        ws = write_values(fi.node, e.id)
+        if not ws:
+            return BOTH  # a parameter or a free name the caller said nothing about
+        out = set()
+        for _st, v in ws:
+            out |= nullness(prog, fi, v, env, depth - 1) if v is not None and not (isinstance(v, ast.Name) and v.id == e.id) else BOTH
+        return frozenset(out)
+    if isinstance(e, ast.Call):
+        c = chain(e.func)
+        if c is not None:
+            q = prog.resolve_in_module(fi.module, c)
+            if q in prog.classes or c in _BUILTIN_CTORS:
+                return frozenset({OBJ})
+            if c.split(".")[-1][:1].isupper() and c.split(".")[-1].endswith(("Error", "Exception")) and "." not in c:
+                return frozenset({OBJ})  # builtin exception classes (ConnectionResetError(...), ...)
+        return BOTH
+    if isinstance(e, ast.IfExp):
+        t, f = _refine(e.test, env)
+        return nullness(prog, fi, e.body, t, depth - 1) | nullness(prog, fi, e.orelse, f, depth - 1)
+    if isinstance(e, ast.BoolOp):
+        vals = [nullness(prog, fi, v, env, depth - 1) for v in e.values]
+        if isinstance(e.op, ast.Or):
+            # `a or b`: a when it is true (then it is not None), else b
+            out = set()
+            for v in vals[:-1]:
+                out |= v - {NONE}
+            return frozenset(out | vals[-1])
+        return frozenset(set().union(*vals))
+    return BOTH
+
+
+def not_handed_on(fi, sites, given, subjects_none_ok=(), aliases=None):
+    """For a function that is to hand something on at the call sites `sites`: {value of `given` (NONE / OBJ):
+    description of a normal path that passes none of the sites}.  `given` is the parameter under discussion;
+    paths on which one of `subjects_none_ok` (attribute chains) is None are not demanded to hand on.  Decided over
+    the path model, so guard clauses, nesting, else-branches, De Morgan forms and hoisted tests are the same."""
+    from ..paths import PathModel
+    cfg = cfg_of(fi)
+    subj = {s: [NONE, OBJ] for s in subjects_none_ok}
+    subj[given] = [NONE, OBJ]
+    pm = PathModel(fi, subjects=subj, aliases=dict(aliases or {}))
+    site_n = set()
+    for c in sites:
+        site_n |= set(cfg.locate(c))
+    lost = {}
+    for p in pm.paths():
+        if any(p.values.get(s) == NONE for s in subjects_none_ok):
+            continue
+        if p.end == "cut" or site_n & set(p.nodes):
+            continue
+        for v in ([p.values[given]] if given in p.values else [NONE, OBJ]):
+            lost.setdefault(v, pm.describe(p))
+    return lost
